@@ -988,7 +988,10 @@ class Application():
         elif status_code in default_states:
             handler = default_states[status_code][METHOD_GET]
             req.error_handler = handler
-            return handler(req, **kwargs)
+            try:
+                return handler(req, **kwargs)
+            except Exception:  # pylint: disable=broad-except
+                return internal_server_error(req)
         else:
             return not_implemented(req, status_code)
 
